@@ -1,6 +1,8 @@
 import Proofs.Sync
 import Props.C07
 import Proofs.Locks
+import Model.Signals
+import Proofs.Offline
 /-! # C10 — the read routine never wedges: failed connections are left and redialed
 
 Model: `Model.Sync` (every interleaving of the read routine with any number of
@@ -95,5 +97,47 @@ theorem C10_no_circular_wait (a : Waiter) (ps : List Waiter) (ha : a.Disciplined
 
 /-- non-vacuity: the inverted order (write lock before the sequence locks) is rejected -/
 example : orderOK ["connSem", "writeSem", "atLeastOnce.seqSem", "exactlyOnce.seqSem"] = false := by decide
+
+/-- REGENERATED FACT. `connect` (on success) and `toOffline` flip the signals in this order, as the extractor reads it off the
+source on every run, and only then hand the write semaphore back: Offline is blocked before Online is released (connect), Online
+is blocked before Offline is released (toOffline). Both keep "never both released" from every state, end in Online (resp.
+Offline), and – flipping under the write lock – cannot be overtaken by a `Close` that takes that lock. -/
+theorem C10_fact_signals :
+    soundSignals Facts.syn_connect_signals true = true ∧ soundSignals Facts.syn_toOffline_signals false = true := by decide
+
+/-! ## The read routine leaves a failed connection (session model) -/
+
+/-- `toOffline` always abandons the read state of the connection: nothing is read from it any more and no big message
+stays parked -/
+theorem C10_toOffline_drops_read (s : S) : s.toOffline.readConn = false ∧ s.toOffline.big = none := by
+  rw [toOffline_eq]
+  split
+  · exact ⟨rfl, rfl⟩
+  · exact ⟨(offTail_rd _).1, (offTail_rd _).2.1⟩
+
+/-- and, unless the client is closed, the write semaphore holds the pending marker afterwards: the next ReadSlices dials -/
+theorem C10_toOffline_pending (s : S) (h : s.link ≠ .closed) : s.toOffline.link = .pending := by
+  rw [toOffline_eq]
+  have : (s.link == Link.closed) = false := by cases hl : s.link <;> simp_all
+  simp only [this, Bool.false_eq_true, if_false]
+  exact (offTail_rd _).2.2
+
+/-- F26 on the model: whenever a read inside `BigMessage.ReadAll` fails, the call returns that error with the read routine off
+the connection – the rest of the payload is never taken for packets -/
+theorem C10_failed_readall_gives_up (s : S) (size : Nat) (rd : Rd) (hb : s.big = some size) (hr : s.rd? = some rd)
+    (hf : (readAllLoop (size + 1) rd size []).2.2 = true) :
+    (s.readAll).1.readConn = false ∧ (s.readAll).1.big = none ∧ (∃ e, (s.readAll).2 = .error e) := by
+  unfold S.readAll
+  simp only [hb, hr]
+  rcases hl : readAllLoop (size + 1) rd size [] with ⟨rd', r, failed⟩
+  rw [hl] at hf
+  simp only at hf
+  subst hf
+  simp only [if_true]
+  refine ⟨(C10_toOffline_drops_read _).1, (C10_toOffline_drops_read _).2, ?_⟩
+  have := readAllLoop_failed_error (size + 1) rd size []
+  rw [hl] at this
+  exact this rfl
+example : (readAllLoop 2 { size := 4 } 1 []).2.2 = true := by decide
 
 end Model
